@@ -15,9 +15,11 @@ R-C08.2  (with R-C08.3) `check_bb` is interpreted as a whole with recorder token
          (truth tables over the membership atoms).
 R-C08.3  every successor edge, dummy ones included, is examined; the edge loop has no early
          exit other than raising.
-R-C08.4  CFG construction: dead code after a jump hangs off the block that jumped
-         (`prev_bb` follows the current block), and the pruning loop removes
-         unreachable->reachable edges symmetrically.
+R-C08.4  CFG construction, interpreted (c08_build.py): `visit_stmts` on all statement sequences of length <= 4 over {plain, ends in
+         a new block, jumps}: dead code after a jump starts a fresh block dummy-linked from the block that jumped; `build` with
+         the real `link` / `update_reachable` (both set-iteration orders) on 9 model CFGs: reachable = graph reachability, no
+         dead block keeps a live successor, no live block a dummy predecessor, both list pairs stay mirrored, other edges kept,
+         "return expected" iff the fall-through end is live.  (Shape / text forms only as fallback.)
 R-C08.5  path-dependent types: check_rows_match raises iff some variable's type differs between the
          two rows (all small row pairs, c08_rows.py below); check_cfg compares revisited blocks.
 R-C08.6  per-block summaries: BB.compute_variable_stats with the whole VariableVisitor is interpreted on 18 small blocks
@@ -117,7 +119,7 @@ def run(ctx: Ctx) -> None:
         f = idx.find_func(fn_name, hint)
         g = CFG(f.node)
         users = [n for n in g.nodes if n.kind in ("stmt", "test") and n.ast is not None and any(
-            isinstance(x, ast.Attribute) and x.attr in ("live_before", "ass_before", "maybe_ass_before") and dotted(x.value) in ("cfg",) for e in _exprs(n) for x in ast.walk(e))
+            isinstance(x, ast.Attribute) and x.attr in ("live_before", "ass_before", "maybe_ass_before") and isinstance(x.ctx, ast.Load) for e in _exprs(n) for x in ast.walk(e))
             or any(call_name(c) in ("check_bb", "check_cfg") for c in node_calls(n))]
         users = [n for n in users if not any(call_name(c) == "analyze" for c in node_calls(n))]
         if fn_name != "check_cfg":
@@ -183,21 +185,27 @@ def run(ctx: Ctx) -> None:
                   "a control-flow edge (e.g. into statically dead code) is not checked for undefined variables")
 
     # ------------------------------------------------------------ R-C08.4 CFG construction
-    vs = idx.method("CFGBuilder", "visit_stmts", "guppylang_internals.cfg.builder")
-    upd = [n for n in walk_no_nested(vs.node) if isinstance(n, ast.Assign) and isinstance(n.targets[0], ast.Tuple) and [dotted(t) for t in n.targets[0].elts] == ["prev_bb", "bb_opt"]]
-    ok = len(upd) == 1 and isinstance(upd[0].value, ast.Tuple) and dotted(upd[0].value.elts[0]) == "bb_opt" and isinstance(upd[0].value.elts[1], ast.Call) and call_name(upd[0].value.elts[1]) == "visit"
-    dl = [c for c in calls_in(vs.node) if call_name(c) == "dummy_link"]
-    ok2 = len(dl) == 1 and [dotted(a) for a in dl[0].args] == ["prev_bb", "bb_opt"]
-    ctx.check(ok and ok2, "R-C08.4", f"{vs.qualname}#dead-code-hangs-off-the-jumping-block", vs.where,
-              {"update": ast.unparse(upd[0]) if upd else None, "dummy_link": ast.unparse(dl[0]) if dl else None},
-              "dead code after return/break/continue is attached to an earlier block: its variable uses are demanded too early and a "
-              "correct program is rejected as 'not defined'")
-    bld = idx.method("CFGBuilder", "build", "guppylang_internals.cfg.builder")
-    txt = ast.unparse(bld.node)
-    ok = "bb.successors.remove(succ)" in txt and "succ.predecessors.remove(bb)" in txt and "pred.dummy_successors.remove(bb)" in txt and "bb.dummy_predecessors = []" in txt \
-        and "update_reachable()" in txt
-    ctx.check(ok, "R-C08.4", f"{bld.qualname}#pruning-is-symmetric", bld.where, {},
-              "pruning jumps from unreachable into reachable code leaves successor/predecessor lists inconsistent")
+    from . import c08_build
+    vs_decided, build_decided = c08_build.run(ctx)
+    if not vs_decided:
+        # fallback: the shape of the loop in visit_stmts
+        vs = idx.method("CFGBuilder", "visit_stmts", "guppylang_internals.cfg.builder")
+        upd = [n for n in walk_no_nested(vs.node) if isinstance(n, ast.Assign) and isinstance(n.targets[0], ast.Tuple) and [dotted(t) for t in n.targets[0].elts] == ["prev_bb", "bb_opt"]]
+        ok = len(upd) == 1 and isinstance(upd[0].value, ast.Tuple) and dotted(upd[0].value.elts[0]) == "bb_opt" and isinstance(upd[0].value.elts[1], ast.Call) and call_name(upd[0].value.elts[1]) == "visit"
+        dl = [c for c in calls_in(vs.node) if call_name(c) == "dummy_link"]
+        ok2 = len(dl) == 1 and [dotted(a) for a in dl[0].args] == ["prev_bb", "bb_opt"]
+        ctx.check(ok and ok2, "R-C08.4", f"{vs.qualname}#dead-code-hangs-off-the-jumping-block", vs.where,
+                  {"update": ast.unparse(upd[0]) if upd else None, "dummy_link": ast.unparse(dl[0]) if dl else None},
+                  "dead code after return/break/continue is attached to an earlier block: its variable uses are demanded too early and a "
+                  "correct program is rejected as 'not defined'")
+    if not build_decided:
+        # fallback: the pruning statements by their text
+        bld = idx.method("CFGBuilder", "build", "guppylang_internals.cfg.builder")
+        txt = ast.unparse(bld.node)
+        ok = "bb.successors.remove(succ)" in txt and "succ.predecessors.remove(bb)" in txt and "pred.dummy_successors.remove(bb)" in txt and "bb.dummy_predecessors = []" in txt \
+            and "update_reachable()" in txt
+        ctx.check(ok, "R-C08.4", f"{bld.qualname}#pruning-is-symmetric", bld.where, {},
+                  "pruning jumps from unreachable into reachable code leaves successor/predecessor lists inconsistent")
 
     # ------------------------------------------------------------ R-C08.5 path-dependent types
     from . import c08_rows
